@@ -243,6 +243,57 @@ func execEp(op string) func(a []string) string {
 
 func (h *epHandler) registeredBeforeClose() bool { return !h.lateOK }
 
+// ep.closebusy <calls>: a peer that sends and does not read.  The handler's queue (capacity 1) is full, the
+// next call is answered with an error reply, and that reply waits for the peer: the endpoint is in the
+// middle of a dispatch when Close is called.  Close has to return, the callback run once, the queue close.
+func epCloseBusy(a []string) string {
+	log.SetOutput(ioutil.Discard)
+	calls, _ := strconv.Atoi(a[0])
+	x, y := gonet.Pipe()
+	defer y.Close()
+	ep := qnet.NewEndPoint(qnet.ConnStream(x))
+	queue := make(chan *qnet.Message, 1)
+	var closer int64
+	ep.MakeHandler(func(*qnet.Header) (bool, bool) { return true, true }, queue, func(error) { atomic.AddInt64(&closer, 1) })
+	for i := 0; i < calls; i++ {
+		m := qnet.NewMessage(qnet.NewHeader(qnet.Call, 1, 1, 100, uint32(i+1)), nil)
+		done := make(chan error, 1)
+		go func() { done <- m.Write(y) }()
+		select {
+		case <-done:
+		case <-time.After(300 * time.Millisecond):
+			// the endpoint is busy with the reply to the call before: it reads no further
+		}
+	}
+	time.Sleep(20 * time.Millisecond)
+	closed := make(chan struct{})
+	go func() { ep.Close(); close(closed) }()
+	select {
+	case <-closed:
+	case <-time.After(3 * time.Second):
+		return "fail:Close does not return while a reply waits for the peer"
+	}
+	deadline := time.Now().Add(2 * time.Second)
+	for atomic.LoadInt64(&closer) == 0 && time.Now().Before(deadline) {
+		time.Sleep(200 * time.Microsecond)
+	}
+	time.Sleep(2 * time.Millisecond)
+	if n := atomic.LoadInt64(&closer); n != 1 {
+		return fmt.Sprintf("fail:close callback ran %d times", n)
+	}
+	for i := 0; i < 2; i++ {
+		select {
+		case _, ok := <-queue:
+			if !ok {
+				return "ok"
+			}
+		case <-time.After(time.Second):
+			return "fail:queue not closed"
+		}
+	}
+	return "fail:queue not closed"
+}
+
 func init() {
 	for _, op := range []string{"reset", "make", "remove", "msg", "sync", "drain", "close", "peerclose", "final"} {
 		executors["ep."+op] = execEp(op)
@@ -258,6 +309,7 @@ func init() {
 		return out.Result
 	}
 	children["ep.race"] = childEpRace
+	executors["ep.closebusy"] = epCloseBusy
 	runners["C17"] = runC17
 }
 
@@ -406,6 +458,14 @@ func runC17(r *Rand, tier string, o *Out) {
 		if res != "ok" {
 			o.Fail("endpoint handler race: "+res, op+" => "+res+" "+tail(lastFailDetail, 500))
 		}
+	}
+	// Close in the middle of a dispatch whose error reply waits for a peer that does not read
+	for _, calls := range []int{2, 3, 5} {
+		op := fmt.Sprintf("ep.closebusy %d", calls)
+		if res := o.Do("P", op, true); res != "ok" {
+			o.Fail("Close while a reply waits for the peer: "+strings.TrimPrefix(res, "fail:"), op+" => "+res)
+		}
+		o.Count("op:close-while-a-reply-waits")
 	}
 	_ = sort.Ints
 }
